@@ -344,8 +344,9 @@ func rulesC04(w *World, r *Report) {
 				return regexp.MustCompile(`^whispertool\.ArchiveInfo\.MaxRetention\(p0\.header\.archiveInfoList\[.*\]\)$`).MatchString(s) || regexp.MustCompile(`^RET|^\(p0\.header\.archiveInfoList\[.*\]\.secondsPerPoint \*`).MatchString(s)
 			}
 			isAge := func(s string) bool { return s == "whispertool.Timestamp.Sub(p2, p1)" }
-			isLoop := strings.HasPrefix(ys, "len(") || strings.HasPrefix(xs, "len(")
-			if isLoop {
+			// only comparisons that involve the age or a retention are the choice; index bookkeeping (the loop bound,
+			// "is this the last archive") is not
+			if !(isRet(xs) || isRet(ys) || isAge(xs) || isAge(ys) || strings.Contains(xs+ys, "MaxRetention(") || strings.Contains(xs+ys, "Timestamp.Sub(") || strings.Contains(xs+ys, "p1") || strings.Contains(xs+ys, "p2")) {
 				return
 			}
 			n++
